@@ -3,6 +3,7 @@ package c06
 
 import (
 	"math"
+	"unsafe"
 
 	"github.com/trajectoryjp/spatial_id_go/v4/common/object"
 	"github.com/trajectoryjp/spatial_id_go/v4/shape"
@@ -73,6 +74,73 @@ func fnSidVsExt() *run.Fn {
 		sids, e1 := shape.GetSpatialIdsOnLine(pointArg(a[0]), pointArg(a[1]), z)
 		eids, e2 := shape.GetExtendedSpatialIdsOnLine(pointArg(a[0]), pointArg(a[1]), z, z)
 		return w.L(w.WithErr(w.Strs(sids), e1), w.WithErr(w.Strs(eids), e2))
+	}}
+}
+
+// setRaw overwrites the stored fields of an existing point object (the caller mutating / reusing its own object)
+func setRaw(p *object.Point, lon, lat, alt float64) {
+	f := (*[3]float64)(unsafe.Pointer(p))
+	f[0], f[1], f[2] = lon, lat, alt
+	if p.Lon() != lon && lon == lon || p.Lat() != lat && lat == lat || p.Alt() != alt && alt == alt {
+		panic("harness: object.Point layout changed")
+	}
+}
+
+// LineHistory: a sequence of calls in one case. args: [reuse, mutate, steps]; a step is [false, p1, p2, h, v] (extended form) or
+// [true, p1, p2, zoom] (spatial-ID form). reuse: the caller passes the SAME two point objects in every step, overwriting their
+// fields before each call and scribbling on them after it; mutate: the caller overwrites and reorders every returned slice
+// after recording it. Result: one observed value per step.
+func fnHistory() *run.Fn {
+	return &run.Fn{Name: "LineHistory", Invoke: func(a []w.Val) w.Val {
+		reuse, mutate := w.AsBool(a[0]), w.AsBool(a[1])
+		pa, pb := &object.Point{}, &object.Point{}
+		var out w.List
+		for _, st := range w.AsList(a[2]) {
+			f := w.AsList(st)
+			sid := w.AsBool(f[0])
+			h := w.AsInt(f[3])
+			v := h
+			if !sid {
+				v = w.AsInt(f[4])
+			}
+			if tooLong(f[1], f[2], h, v) {
+				out = append(out, w.Nil{})
+				continue
+			}
+			arg := func(x w.Val, own *object.Point) *object.Point {
+				if _, ok := x.(w.Nil); ok {
+					return nil
+				}
+				l := w.AsList(x)
+				if reuse {
+					setRaw(own, w.AsFlt(l[0]), w.AsFlt(l[1]), w.AsFlt(l[2]))
+					return own
+				}
+				return RawPoint(w.AsFlt(l[0]), w.AsFlt(l[1]), w.AsFlt(l[2]))
+			}
+			p1, p2 := arg(f[1], pa), arg(f[2], pb)
+			var ids []string
+			var err error
+			if sid {
+				ids, err = shape.GetSpatialIdsOnLine(p1, p2, h)
+			} else {
+				ids, err = shape.GetExtendedSpatialIdsOnLine(p1, p2, h, v)
+			}
+			out = append(out, w.WithErr(w.Strs(append([]string{}, ids...)), err))
+			if mutate { // the caller does what it likes with its own result
+				for i := range ids {
+					ids[i] = "0/0/0/0/0"
+				}
+				if len(ids) > 1 {
+					ids[0], ids[len(ids)-1] = "1/1/1/1/1", "2/2/2/2/2"
+				}
+			}
+			if reuse { // ... and with its own objects
+				setRaw(pa, 1, 2, 3)
+				setRaw(pb, -4, -5, -6)
+			}
+		}
+		return out
 	}}
 }
 
@@ -507,13 +575,135 @@ func genLong(g *Gen, h, v int64) seg {
 	return s
 }
 
+// lines with vZoom > hZoom whose vertical index leaves [-2^hZoom, 2^hZoom-1] (the horizontal index range): the neighbour test
+// must not treat the vertical index like a horizontal one
+func genVAboveH(g *Gen) (seg, int64, int64) {
+	h := g.Int63n(9)
+	v := h + 4 + g.Int63n(11)
+	if v > 18 {
+		v = 18
+	}
+	cl, ca := cellLon(h), cellAlt(v)
+	maxH := math.Pow(2, float64(h))
+	f0 := sgn(g) * (maxH + 2 + math.Floor(g.R.Float64()*40))
+	if g.Chance(0.3) {
+		f0 = sgn(g) * (maxH + g.PickF(-1, 0, 1, 2))
+	}
+	lon := g.R.Float64()*300 - 150
+	lat := g.R.Float64()*140 - 70
+	alt := (f0 + g.R.Float64()) * ca
+	k := 3 + g.R.Float64()*30
+	s := seg{kind: "v-above-h"}
+	s.a = [3]float64{lon, lat, alt}
+	dh := func() float64 { return (g.R.Float64()*2 - 1) * g.PickF(0, 0.001, 0.05, 0.6) }
+	s.b = [3]float64{lon + dh()*cl, lat + dh()*cl*math.Cos(lat*math.Pi/180), alt + math.Copysign(k*ca, f0)*g.PickF(1, 1, -0.5)}
+	return s, h, v
+}
+
+// one step of a call history
+func stepExt(p1, p2 w.Val, h, v int64) w.Val { return w.L(w.B(false), p1, p2, w.I(h), w.I(v)) }
+func stepSid(p1, p2 w.Val, z int64) w.Val    { return w.L(w.B(true), p1, p2, w.I(z)) }
+
+func storedVal(a [3]float64) (w.Val, bool) {
+	_, v, ok := StoredPoint(clamp(a[0], -180, 180), clamp(a[1], -LatMax, LatMax), clamp(a[2], -33554432, 33554432))
+	return v, ok
+}
+
+// genHistory: consecutive RELATED calls (same key-like arguments with different remaining ones and the reverse), invalid/valid
+// pairs, repeats. Every case starts with a fixed unrelated priming call, so a shrunk case replays in a fresh process.
+func genHistory(g *Gen) (steps w.List, tag string, ok bool) {
+	h, v := lineZooms(g)
+	if g.Chance(0.5) {
+		h, v = g.Zoom(), g.Zoom()
+	}
+	var s seg
+	for {
+		s = genSegment(g, h, v)
+		if s.kind != "identical" && s.kind != "tiny" && cells(s, h, v) <= 12 {
+			break
+		}
+	}
+	p1, ok1 := storedVal(s.a)
+	p2, ok2 := storedVal(s.b)
+	// a second, related segment: same start, other end
+	cl, ca := cellLon(h), cellAlt(v)
+	q2, ok3 := storedVal([3]float64{s.b[0] + (g.R.Float64()*2-1)*3*cl, s.b[1] + (g.R.Float64()*2-1)*3*cl*math.Cos(s.b[1]*math.Pi/180), s.b[2] + (g.R.Float64()*2-1)*3*ca})
+	// both ends in one voxel
+	t2, ok4 := storedVal([3]float64{s.a[0] + 1e-4*cl*g.R.Float64(), s.a[1], s.a[2]})
+	if !(ok1 && ok2 && ok3 && ok4) {
+		return nil, "", false
+	}
+	pr1, _ := storedVal([3]float64{139.7531, 35.6851, 12.5})
+	pr2, _ := storedVal([3]float64{139.7533, 35.6853, 40.5})
+	steps = w.List{stepExt(pr1, pr2, 20, 20)}
+	bad := badZooms[g.Intn(4)]
+	switch g.Intn(10) {
+	case 0: // same points, same hZoom, other vZoom, and back
+		tag = "same-points-other-vzoom"
+		v2 := g.Int63n(v + 1) // coarser, or up to three levels finer (keeps the segment small)
+		if v2 == v || g.Chance(0.5) {
+			v2 = v + 1 + g.Int63n(3)
+			if v2 > 35 {
+				v2 = v - 1
+			}
+		}
+		if v2 < 0 {
+			v2 = 1
+		}
+		steps = append(steps, stepExt(p1, p2, h, v), stepExt(p1, p2, h, v2), stepExt(p1, p2, h, v))
+	case 1: // same points, other hZoom (coarser, to stay small)
+		tag = "same-points-other-hzoom"
+		h2 := g.Int63n(h + 1)
+		if h2 == h && h > 0 {
+			h2 = h - 1
+		}
+		steps = append(steps, stepExt(p1, p2, h, v), stepExt(p1, p2, h2, v), stepExt(p1, p2, h, v))
+	case 2: // same zooms, other points, and back
+		tag = "same-zooms-other-points"
+		steps = append(steps, stepExt(p1, p2, h, v), stepExt(p1, q2, h, v), stepExt(p2, p1, h, v), stepExt(p1, p2, h, v))
+	case 3: // invalid then valid with the same remaining arguments
+		tag = "invalid-then-valid"
+		switch g.Intn(3) {
+		case 0:
+			steps = append(steps, stepExt(p1, p2, h, bad), stepExt(p1, p2, h, v))
+		case 1:
+			steps = append(steps, stepExt(p1, p2, bad, v), stepExt(p1, p2, h, v))
+		default:
+			steps = append(steps, stepExt(w.Nil{}, p2, h, v), stepExt(p1, w.Nil{}, h, v), stepExt(p1, p2, h, v))
+		}
+	case 4: // valid, invalid, the same invalid again, valid again
+		tag = "valid-invalid-invalid"
+		steps = append(steps, stepExt(p1, p2, h, v), stepExt(p1, p2, h, bad), stepExt(p1, p2, h, bad), stepExt(p1, p2, h, v))
+	case 5: // identical calls
+		tag = "repeat"
+		steps = append(steps, stepExt(p1, p2, h, v), stepExt(p1, p2, h, v), stepExt(p1, p2, h, v))
+	case 6: // both forms interleaved on the same input
+		tag = "sid-ext-interleaved"
+		steps = append(steps, stepSid(p1, p2, h), stepExt(p1, p2, h, h), stepSid(p1, p2, h), stepSid(p1, q2, h))
+	case 7: // a single-voxel answer, then a line (and the reverse)
+		tag = "single-then-line"
+		if g.Chance(0.5) {
+			steps = append(steps, stepSid(p1, t2, h), stepSid(p1, p2, h), stepSid(p1, t2, h))
+		} else {
+			steps = append(steps, stepExt(p1, t2, h, v), stepExt(p1, p2, h, v), stepExt(p1, t2, h, v))
+		}
+	case 8: // invalid spatial-ID call between valid ones
+		tag = "sid-valid-invalid-valid"
+		steps = append(steps, stepSid(p1, p2, h), stepSid(p1, p2, bad), stepSid(p1, p2, bad), stepSid(p1, p2, h))
+	default: // same zooms, a sequence of different segments sharing an end point
+		tag = "chain-of-segments"
+		steps = append(steps, stepExt(p1, p2, h, v), stepExt(p2, q2, h, v), stepExt(q2, p1, h, v), stepExt(p1, p2, h, v))
+	}
+	return steps, tag, true
+}
+
 var badZooms = []int64{-1, 36, 37, 100, -36, math.MinInt64, math.MaxInt64}
 
 func init() {
 	Scale["C06"] = 450
 	Registry["C06"] = func(r *run.Runner, g *Gen, n int) {
 		MathOracles(r)
-		r.Register(fnLine(), fnLineSid(), fnSidVsExt())
+		r.Register(fnLine(), fnLineSid(), fnSidVsExt(), fnHistory())
 		hwm := int64(0)
 		nodeFail := 0 // runs of the model in which some visited node failed its A1/A2 check
 		if n > 0 { // the recorded witness of finding class retruncation_unstable_endpoint (DESIGN.md 5.3, D14): row ...392 is missing
@@ -527,6 +717,15 @@ func init() {
 				Args: []w.Val{p1, p3, w.I(34), w.I(6)}})
 		}
 		for i := 0; i < n; i++ {
+			if i%8 == 1 { // call histories
+				if steps, tag, ok := genHistory(g); ok {
+					reuse, mutate := g.Chance(0.5), g.Chance(0.7)
+					r.Run(run.Case{Prop: "C06", Fn: "LineHistory",
+						Tags: []string{"history", "history=" + tag, Tag("history-reuse-objects=%v", reuse), Tag("history-mutate-results=%v", mutate)},
+						Args: []w.Val{w.B(reuse), w.B(mutate), steps}})
+				}
+				continue
+			}
 			h, v := lineZooms(g)
 			cmp := i%15 == 8 // both exported functions on the same input
 			sid := i%6 == 4 || cmp
@@ -585,6 +784,12 @@ func init() {
 					if c := cells(s, h, v); c <= 320 {
 						break
 					}
+				}
+			}
+			if i%10 == 0 {
+				s, h, v = genVAboveH(g)
+				if sid {
+					sid, cmp = false, false
 				}
 			}
 			if i%12 == 5 { // an end point that is not stable under re-storing (the recorded finding class)
